@@ -5,6 +5,7 @@ import (
 	"fmt"
 	"math/rand"
 	"net/url"
+	"regexp"
 	"strings"
 	"sync"
 	"sync/atomic"
@@ -193,6 +194,49 @@ func conformantQuery(rng *rand.Rand, sp *spsim.SPDesc, login string) *spsim.Attr
 	return q
 }
 
+var (
+	queryStartRE = regexp.MustCompile(`<([A-Za-z0-9_.-]+:)?AttributeQuery[^>]*>`)
+	nsDeclRE     = regexp.MustCompile(`\s+xmlns:[A-Za-z0-9_.-]+="[^"]*"`)
+	soapTagRE    = regexp.MustCompile(`<([A-Za-z0-9_.-]+:)?Envelope\b`)
+	soapBodyRE   = regexp.MustCompile(`<([A-Za-z0-9_.-]+:)?Body\b`)
+)
+
+// hoistNamespaces moves the prefixed namespace declarations of the AttributeQuery start tag to the SOAP Envelope (or
+// Body) start tag. ok is false when the query declares a default namespace (which cannot be moved without changing
+// the meaning of the SOAP elements) or nothing is there to move.
+func hoistNamespaces(envelope string, onBody bool) (string, bool) {
+	loc := queryStartRE.FindStringIndex(envelope)
+	if loc == nil {
+		return "", false
+	}
+	tag := envelope[loc[0]:loc[1]]
+	if strings.Contains(tag, ` xmlns="`) {
+		return "", false
+	}
+	decls := nsDeclRE.FindAllString(tag, -1)
+	if len(decls) == 0 {
+		return "", false
+	}
+	soapDecl := soapTagRE.FindString(envelope)
+	for _, d := range decls {
+		// a prefix the envelope itself uses stays where it is
+		if soapDecl != "" && strings.Contains(envelope[:loc[0]], strings.TrimSpace(d)[:strings.Index(strings.TrimSpace(d), "=")+1]) {
+			return "", false
+		}
+	}
+	newTag := nsDeclRE.ReplaceAllString(tag, "")
+	out := envelope[:loc[0]] + newTag + envelope[loc[1]:]
+	re := soapTagRE
+	if onBody {
+		re = soapBodyRE
+	}
+	m := re.FindStringIndex(out)
+	if m == nil || m[0] > loc[0] {
+		return "", false
+	}
+	return out[:m[1]] + strings.Join(decls, "") + out[m[1]:], true
+}
+
 func c07Query(r *core.Run, idx int, rng *rand.Rand) {
 	const wl = "conformant_attribute_query"
 	e := env.Static(env.Opts{})
@@ -213,9 +257,19 @@ func c07Query(r *core.Run, idx int, rng *rand.Rand) {
 		}
 		sx = strings.TrimPrefix(sx, `<?xml version="1.0" encoding="UTF-8"?>`)
 		body = q.Envelope(strings.TrimSpace(sx))
+		if h, ok := hoistNamespaces(body, rng.Intn(2) == 0); ok && rng.Intn(2) == 0 {
+			// the same signed query with its namespace prefixes declared on the SOAP Envelope / Body (the exclusive
+			// canonical form of the signed element is the same)
+			body = h
+			class = append(class, "namespaces_declared_on_the_envelope")
+		}
 	} else {
 		class = append(class, "unsigned")
 		body = q.XML(rng)
+		if h, ok := hoistNamespaces(body, rng.Intn(2) == 0); ok && rng.Intn(3) == 0 {
+			body = h
+			class = append(class, "namespaces_declared_on_the_envelope")
+		}
 	}
 	if q.Destination != "" {
 		class = append(class, "with_destination")
